@@ -40,10 +40,13 @@ BINOPS_REP = ['^', '*', '+', '&', '=']
 # defined names handed to the parser in the 'names' family, and the leaves
 # used there: a name used as a reference is replaced by its address, a text
 # literal spelt like a name stays that text
-NAMES = {'rate': 'Sheet1!B2', 'Tax_Rate': "'My Sheet'!A1:A3"}
+NAMES = {'rate': 'Sheet1!B2', 'Tax_Rate': "'My Sheet'!A1:A3",
+         # names that Python's float() would take for numbers
+         'INF': 'Sheet1!C3', 'nan': 'Sheet1!C4'}
 NAME_LEAVES = [('str', 'rate'), ('name', 'rate'), ('str', 'Tax_Rate'),
                ('name', 'Tax_Rate'), ('str', 'RATE'), ('ref', 'A1'),
-               ('num', '1'), ('str', 'Sheet1!B2')]
+               ('num', '1'), ('str', 'Sheet1!B2'), ('name', 'INF'),
+               ('name', 'nan'), ('str', 'INF')]
 FUNCS = ['SUM', 'IF', 'sum', '_xlfn.CONCAT', '@SUM', 'Max']
 
 
